@@ -205,6 +205,16 @@ def run(ctx):
         # sparse and dense branch gather with the same permutation
         rows = [g for g in _gather_nodes(ps.node) if g[1] == 0 and g[0] in roles]
         names = {g[0] for g in rows}
+        # each arm of the sparse / dense split performs the row gather (a missing arm leaves the result unbound for that representation)
+        for n_ in walk_no_nested(ps.node):
+            if isinstance(n_, ast.If) and "issparse" in unparse(n_.test) and n_.orelse:
+                arms = []
+                for blk in (n_.body, n_.orelse):
+                    arms.append(any(g[1] == 0 and g[0] in roles for s_ in blk for g in _gather_nodes(s_)) or
+                                any(isinstance(x, ast.BinOp) and isinstance(x.op, ast.MatMult) for s_ in blk for x in ast.walk(s_)))
+                if any(arms):
+                    ctx.ob("R-SIB", ps, "both the sparse and the dense arm gather the rows", all(arms), "row gather in both arms" if all(arms) else
+                           f"the {'sparse' if not arms[0] else 'dense'} arm no longer gathers the rows: the permuted matrix is unbound (or unpermuted) for that representation", n_)
         if rows:
             ctx.ob("R-SIB", ps, "sparse/dense-gather-agree", len(names) == 1,
                    f"{len(rows)} row gather(s) all index with `{sorted(names)[0]}`" if len(names) == 1 else
